@@ -52,6 +52,20 @@ def plan(tier, seed):
               dd=pick(rng, ["complex128", "complex128", "float64", "complex64", "float32"]),
               df=pick(rng, ["complex128", "complex128", "float64", "complex64", "float32"]),
               via=pick(rng, ["func", "func", "linop"]))
+    # histories: adjoint calls on two shape settings and two stride settings in varying
+    # order within one process (scratch buffers / cached plans must not leak between calls)
+    for i in range(60 if quick else 900):
+        D = int(pick(rng, [1, 2]))
+        shapes = []
+        for k in range(2):
+            m = [int(rng.integers(3, 8)) for _ in range(D)]
+            n = [int(rng.integers(1, a + 1)) for a in m]
+            shapes.append((m, n))
+        strides = [[int(rng.integers(1, 4)) for _ in range(D)] for k in range(2)]
+        seq = [[int(rng.integers(2)), int(rng.integers(2))] for k in range(6)]
+        P.add("conv-history", shapes=shapes, strides=strides, seq=seq,
+              mode=pick(rng, ["full", "valid"]), multi=bool(rng.random() < 0.3),
+              dts=[pick(rng, ["complex128", "float64"]) for k in range(6)])
     return P.cases
 
 
@@ -61,8 +75,54 @@ def _innermost(e):
     return e
 
 
+def run_history(case):
+    import sigpy as sp
+    rng = rng_for(case)
+    mode, multi = case["mode"], case["multi"]
+    sig = "history|%dd|%s|%s" % (len(case["shapes"][0][0]), mode, "mc" if multi else "sc")
+    n_ = 0
+    for (si, ti), dts in zip(case["seq"], case["dts"]):
+        m, n = case["shapes"][si]
+        st = case["strides"][ti]
+        dshape = ([2] if multi else []) + m if not multi else [2, 2] + m
+        fshape = n if not multi else [3, 2] + n
+        kw = dict(mode=mode, strides=st, multi_channel=multi)
+        d = crandn(rng, dshape, dts)
+        f = crandn(rng, fshape)
+        try:
+            out = sp.convolve(d, f, **kw)
+        except Exception:
+            continue
+        ref = O.convolve(d, f, mode, st, multi)
+        y = crandn(rng, out.shape)
+        da = sp.convolve_data_adjoint(y, f, dshape, **kw)
+        fa = sp.convolve_filter_adjoint(y, d, fshape, **kw)
+        lhs = inner(ref, y)
+        r1, r2 = inner(d, da), inner(f, fa)
+        sc = nrm(ref) * nrm(y) + 1e-300
+        n_ += 3
+        wit = {k: case[k] for k in ("shapes", "strides", "seq", "mode", "multi", "dts")}
+        if out.shape != ref.shape or nrm(out - ref) > 1e-10 * (nrm(ref) + 1e-300):
+            return violated(sig, "convolve differs from the definition after earlier calls "
+                            "with other shapes/strides", wit, mech="history-forward")
+        if abs(lhs - r1) > 1e-10 * (sc + nrm(d) * nrm(da)):
+            return violated(sig, "convolve_data_adjoint is not the adjoint after earlier calls "
+                            "with other shapes/strides in this process: %s vs %s (data %s, "
+                            "filter %s, strides %s)" % (lhs, r1, m, n, st), wit,
+                            mech="history-data-adjoint")
+        if abs(lhs - r2) > 1e-10 * (sc + nrm(f) * nrm(fa)):
+            return violated(sig, "convolve_filter_adjoint is not the adjoint after earlier "
+                            "calls with other shapes/strides in this process: %s vs %s" % (
+                                lhs, r2), wit, mech="history-filter-adjoint")
+    if n_ == 0:
+        return inconclusive("every call of the history was rejected")
+    return held(sig, {"calls": n_}, n_, True)
+
+
 def run_case(case):
     import sigpy as sp
+    if case["gen"] == "conv-history":
+        return run_history(case)
     rng = rng_for(case)
     m, n, mode, strides, multi = case["m"], case["n"], case["mode"], case["strides"], \
         case["multi"]
@@ -152,9 +212,12 @@ def run_case(case):
                         "shapes was computed" % type(_innermost(e)).__name__, wit,
                         mech="raised")
     # adjoints (complex operands so that conjugation errors show)
-    dc = crandn(rng, dshape)
-    fc = crandn(rng, fshape)
-    y = crandn(rng, ref.shape)
+    # adjoint operands: every real/complex mix (the adjoint is defined for any complex y,
+    # real ones included; a real y with a complex filter is where a misplaced conjugate hides)
+    mix = case["rs"][-1] % 4
+    dc = crandn(rng, dshape, np.complex128 if mix in (0, 1) else np.float64)
+    fc = crandn(rng, fshape, np.complex128 if mix in (0, 2, 3) else np.float64)
+    y = crandn(rng, ref.shape, np.complex128 if mix in (0, 2) else np.float64)
     try:
         out = sp.convolve(dc, fc, **kw)
         da = sp.convolve_data_adjoint(y, fc, dshape, **kw)
